@@ -233,29 +233,76 @@ theorem C10_cl_resample (W : World ℝ P MS TS G) (cfg : CCfg ℝ) (c : ℝ) (h 
 
 def shiftDrawn (c : ℝ) (d : Drawn ℝ P G) : Drawn ℝ P G := { d with logl := d.logl.map (· + c) }
 
-/-- warm-up draw: a −inf draw of the run on `ℓ` is a −inf draw of the run on `ℓ + c`, so the same positions are
-    replaced, `np.random.choice` is called with the same arguments, and the same correction `log(n_fin/n)` is written -/
+theorem like_shift_map (W : World ℝ P MS TS G) (c : ℝ) (l : List P) :
+    l.map (shiftW c W).like = (l.map W.like).map (Option.map (· + c)) := by
+  simp [shiftW, List.map_map, Function.comp_def]
+
+/-- the redraw loop: a batch is all −inf for the run on `ℓ + c` exactly when it is for the run on `ℓ` (−inf + c = −inf),
+    so both runs discard the same batches, make the same number of draws and raise the ValueError together -/
+theorem C10_cl_drawLoop (W : World ℝ P MS TS G) (c : ℝ) (n : Nat) : ∀ (fuel : Nat) (g : G) (drawn : Nat),
+    drawLoop (shiftW c W) n fuel g drawn
+      = (drawLoop W n fuel g drawn).map fun d => (d.1, d.2.1.map (Option.map (· + c)), d.2.2.1, d.2.2.2) := by
+  intro fuel
+  induction fuel with
+  | zero => intro g drawn; simp [drawLoop]
+  | succ f ih =>
+    intro g drawn
+    have e1 : (shiftW c W).priorDraw = W.priorDraw := rfl
+    simp only [drawLoop, e1, like_shift_map, countSome_map, ih]
+    split
+    · split <;> simp
+    · simp
+
+/-- the fuel `drawCap` is never the reason the loop stops: with `k` batches already drawn,
+    `drawCap − k` further batches are all the cap allows, and any larger fuel gives the same result -/
+theorem drawLoop_fuel (W : World ℝ P MS TS G) (n : Nat) : ∀ (f k extra : Nat) (g : G), 1 ≤ f → k + f = drawCap →
+    drawLoop W n (f + extra) g (k * n) = drawLoop W n f g (k * n) := by
+  intro f
+  induction f with
+  | zero => intro k extra g h; omega
+  | succ f ih =>
+    intro k extra g _ hk
+    have e : f + 1 + extra = (f + extra) + 1 := by omega
+    rw [e]
+    simp only [drawLoop]
+    have hnd : k * n + n = (k + 1) * n := by ring
+    rw [hnd]
+    by_cases hc : countSome ((W.priorDraw g n).1.map W.like) = 0
+    · simp only [hc, if_true]
+      by_cases hcap : (k + 1) * n ≥ drawCap * n
+      · simp [hcap]
+      · simp only [hcap, if_false]
+        have hlt : k + 1 < drawCap := by
+          by_contra hge
+          exact hcap (Nat.mul_le_mul_right n (by omega))
+        exact ih (k + 1) extra _ (by omega) (by omega)
+    · simp [hc]
+
+/-- warm-up draw: a −inf draw of the run on `ℓ` is a −inf draw of the run on `ℓ + c`, so the same batches are discarded,
+    the same positions are replaced, `np.random.choice` is called (or not) with the same arguments, `n_drawn` is the same
+    and the same correction `log(n_fin/n_drawn)` is written -/
 theorem C10_cl_warmup (W : World ℝ P MS TS G) (cfg : CCfg ℝ) (c : ℝ) (g : G) :
     warmupStep (shiftW c W) cfg g = (warmupStep W cfg g).map (shiftDrawn c) := by
   unfold warmupStep
-  have e1 : (shiftW c W).priorDraw = W.priorDraw := rfl
-  have e2 : (shiftW c W).choice = W.choice := rfl
-  have e3 : ∀ l : List P, l.map (shiftW c W).like = (l.map W.like).map (Option.map (· + c)) := by
-    intro l; simp [shiftW, List.map_map, Function.comp_def]
-  simp only [e1, e2, e3, countSome_map, List.length_map]
-  have hsome : ∀ (ls : List (Option ℝ)) (i : Nat),
-      (((ls.map (Option.map (· + c)))[i]?).join.isSome) = ((ls[i]?).join.isSome) := by
-    intro ls i
-    rw [List.getElem?_map]
-    cases ls[i]? with
-    | none => rfl
-    | some a => cases a <;> rfl
-  simp only [hsome, scatterFrom_map, allSome_map]
-  split
-  · split
+  simp only [C10_cl_drawLoop]
+  cases drawLoop W cfg.rw.nPart drawCap g 0 with
+  | none => simp
+  | some d =>
+    simp only [Option.map_some, Option.bind_some]
+    have e2 : (shiftW c W).choice = W.choice := rfl
+    have hsome : ∀ (ls : List (Option ℝ)) (i : Nat),
+        (((ls.map (Option.map (· + c)))[i]?).join.isSome) = ((ls[i]?).join.isSome) := by
+      intro ls i
+      rw [List.getElem?_map]
+      cases ls[i]? with
+      | none => rfl
+      | some a => cases a <;> rfl
+    simp only [e2, countSome_map, List.length_map, hsome, scatterFrom_map, allSome_map]
+    split
+    · split
+      · simp only [Option.map_map]; rfl
+      · simp only [Option.map_map]; rfl
     · simp only [Option.map_map]; rfl
-    · simp only [Option.map_map]; rfl
-  · simp only [Option.map_map]; rfl
 
 /-! ### one `execute_iteration` -/
 
@@ -483,28 +530,51 @@ theorem finalLogz_shift (c : ℝ) (s : CState ℝ P TS G) (hs : WFC s) :
   · obtain ⟨z, h1, h2⟩ := C10_cl_finalLogz c s hs hne
     rw [h1, h2]; rfl
 
-/-- **the whole `run_sampling` on `ℓ + c`** from the fresh state, as an equation: same number of iterations, every
-    iteration record shifted (β, ESS, weights, trainer input, indices, masks, σ's identical; evidence `+ β_k c`), every
-    loop-top state shifted, and the final state is the shift of the final state except that its `logz` — the value
-    `evidence()` returns — is the old one plus exactly `c`.  `none` (out of fuel / outside the model) on one side iff
-    on the other. -/
-theorem C10_cl_run (W : World ℝ P MS TS G) (cfg : CCfg ℝ) (c : ℝ) (fuel : Nat) (ts : TS) (g : G) :
-    runSampling (shiftW c W) cfg fuel (Model.ClosedLoop.init ts g)
-      = (runSampling W cfg fuel (Model.ClosedLoop.init ts g)).map fun q =>
+theorem startState_shift (c : ℝ) (s : CState ℝ P TS G) : startState (shiftCS c s) = shiftCS c (startState s) := by
+  unfold startState
+  cases h : s.hist with
+  | nil => simp [shiftCS, h]
+  | cons b bs => simp [shiftCS, h]
+
+theorem WFC_startState (s : CState ℝ P TS G) (hs : WFC s) : WFC (startState s) := by
+  unfold startState; split
+  · intro b hb; exact hs b hb
+  · exact hs
+
+theorem startState_init (ts : TS) (g : G) :
+    startState (Model.ClosedLoop.init ts g : CState ℝ P TS G) = Model.ClosedLoop.init ts g := by
+  simp [startState, Model.ClosedLoop.init]
+
+/-- **the whole `run_sampling` on `ℓ + c` from ANY well-formed state** — fresh (history empty: `_initialize_fresh`), or
+    carrying committed history (loaded by `load_state` / `resume_state_path`, or left by an earlier `run()`: the middle
+    branch of `run_sampling` continues it) — as an equation: same number of iterations, every iteration record shifted
+    (β, ESS, weights, trainer input, indices, masks, σ's identical; evidence `+ β_k c`), every loop-top state shifted, and
+    the final state is the shift of the final state except that its `logz` — the value `evidence()` returns — is the old
+    one plus exactly `c`.  `none` (out of fuel / outside the model / the warm-up ValueError) on one side iff on the other. -/
+theorem C10_cl_run_from (W : World ℝ P MS TS G) (cfg : CCfg ℝ) (c : ℝ) (fuel : Nat) (s : CState ℝ P TS G) (hs : WFC s) :
+    runSampling (shiftW c W) cfg fuel (shiftCS c s)
+      = (runSampling W cfg fuel s).map fun q =>
           ({ shiftCS c q.1 with logz := q.1.logz + c }, q.2.1.map (shiftCS c), q.2.2.map (shiftCO c)) := by
   unfold runSampling
-  have hl' := C10_cl_runLoop W cfg c fuel (Model.ClosedLoop.init ts g) (WFC_init ts g)
-  rw [shiftCS_init] at hl'
-  rw [hl']
-  cases hl : runLoop W cfg fuel (Model.ClosedLoop.init ts g) with
+  have hw0 := WFC_startState s hs
+  rw [startState_shift, C10_cl_runLoop W cfg c fuel (startState s) hw0]
+  cases hl : runLoop W cfg fuel (startState s) with
   | none => simp
   | some q =>
     obtain ⟨s1, tr1, os1⟩ := q
-    obtain ⟨hw1, _, _⟩ := runLoop_WFC W cfg fuel _ s1 tr1 os1 (WFC_init ts g) hl
+    obtain ⟨hw1, _, _⟩ := runLoop_WFC W cfg fuel _ s1 tr1 os1 hw0 hl
     simp only [Option.map_some, Option.bind_some, finalLogz_shift c s1 hw1]
     cases finalLogz s1 with
     | none => simp
     | some z => simp [shiftCS]
+
+/-- … in particular from the fresh state of a seeded run -/
+theorem C10_cl_run (W : World ℝ P MS TS G) (cfg : CCfg ℝ) (c : ℝ) (fuel : Nat) (ts : TS) (g : G) :
+    runSampling (shiftW c W) cfg fuel (Model.ClosedLoop.init ts g)
+      = (runSampling W cfg fuel (Model.ClosedLoop.init ts g)).map fun q =>
+          ({ shiftCS c q.1 with logz := q.1.logz + c }, q.2.1.map (shiftCS c), q.2.2.map (shiftCO c)) := by
+  have := C10_cl_run_from W cfg c fuel (Model.ClosedLoop.init ts g) (WFC_init ts g)
+  rwa [shiftCS_init] at this
 
 /-- `Sampler.evidence()` after the run on `ℓ + c` returns the evidence of the run on `ℓ` plus exactly `c` -/
 theorem C10_cl_run_evidence (W : World ℝ P MS TS G) (cfg : CCfg ℝ) (c : ℝ) (fuel : Nat) (ts : TS) (g : G)
@@ -680,8 +750,22 @@ noncomputable def sCl1 : CState ℝ Nat Unit Nat :=
 theorem itCl1 : Model.ClosedLoop.iterate wEx cfgCl (Model.ClosedLoop.init () 0)
     = some (sCl1, ⟨0, 1, 0, Real.log (1 / 2), Branch.firstIter, [1 / 2, 1 / 2], none, [], [], []⟩) := by
   have hr : List.range 2 = [0, 1] := by decide
-  simp [Model.ClosedLoop.iterate, Model.ClosedLoop.init, reweightStep, batchesOf, Model.Reweight.run, eqv,
-    trainStep, warmupStep, wEx, cfgCl, Cfg.target, countSome, allSome, scatterFrom, hr, commit, sCl1, returnedWeights]
+  have hd : drawLoop wEx 2 drawCap 0 0 = some ([0, 1], [some 0, none], 2, 1) := by
+    show drawLoop wEx 2 (999 + 1) 0 0 = _
+    simp [drawLoop, wEx, countSome, hr]
+  have hn : cfgCl.rw.nPart = 2 := rfl
+  have hex : ∃ x ≤ 1, ([some (0 : ℝ), none] : List (Option ℝ))[x]?.join = none := ⟨1, le_rfl, rfl⟩
+  have hw : warmupStep wEx cfgCl 0 = some ⟨[0, 0], [0, 0], some (Real.log (1 / 2)), 2, 2⟩ := by
+    simp only [warmupStep, hn, hd, Option.bind_some]
+    simp [countSome, allSome, scatterFrom, hr, hex, wEx]
+  have hrw : reweightStep wEx cfgCl (Model.ClosedLoop.init () 0)
+      = ⟨0, .uniform 2, 1, 0, Branch.firstIter, [], [], []⟩ := by
+    simp [reweightStep, Model.ClosedLoop.init, batchesOf, Model.Reweight.run, cfgCl, Cfg.target]
+  unfold Model.ClosedLoop.iterate
+  rw [hrw]
+  have h00 : eqv (0 : ℝ) Sc.zero = true := by simp [eqv]
+  simp only [trainStep, h00, if_true, Option.bind_some, Model.ClosedLoop.init, hw]
+  simp [commit, sCl1, returnedWeights, hn]
 
 /-- … and the same iteration of the run on `ℓ + 1000`, obtained from `C10_cl_iterate`: the −inf draw is still replaced,
     the stored log-likelihoods are `1000`, the evidence (β = 0) is the same `log(1/2)` -/
@@ -691,6 +775,45 @@ example : Model.ClosedLoop.iterate (shiftW 1000 wEx) cfgCl (Model.ClosedLoop.ini
   have := C10_cl_iterate wEx cfgCl 1000 (Model.ClosedLoop.init () 0) (WFC_init () 0)
   rw [shiftCS_init, itCl1] at this
   exact ⟨this, by simp [shiftCS, sCl1], by simp [shiftCS, sCl1]⟩
+
+/-- a world whose FIRST prior batch lies entirely outside the likelihood's support (records below 10 have ℓ = −inf) -/
+noncomputable def wEx0 : World ℝ Nat Unit Unit Nat := { wEx with like := fun p => if p < 10 then none else some ((p : ℝ) / 4) }
+
+/-- the redraw loop, evaluated: batch `[0, 1]` is all −inf and is discarded, batch `[10, 11]` is kept; four draws were made -/
+theorem drawEx0 : drawLoop wEx0 2 drawCap 0 0 = some ([10, 11], [some (10 / 4), some (11 / 4)], 4, 2) := by
+  have hr : List.range 2 = [0, 1] := by decide
+  show drawLoop wEx0 2 (998 + 1 + 1) 0 0 = _
+  simp [drawLoop, wEx0, wEx, countSome, hr, drawCap]
+
+/-- … so the warm-up step copies nothing (`np.random.choice` is not called: the stream state stays 2), counts 4 calls and
+    writes the correction `log(2/4)`; for the run on `ℓ + 1000` (`C10_cl_warmup`) the same batch is discarded, the same
+    four draws are made, the same correction is written, and the kept log-likelihoods are shifted -/
+example : warmupStep wEx0 cfgCl 0 = some ⟨[10, 11], [10 / 4, 11 / 4], some (Real.log (2 / 4)), 4, 2⟩ ∧
+    warmupStep (shiftW 1000 wEx0) cfgCl 0
+      = some ⟨[10, 11], [10 / 4 + 1000, 11 / 4 + 1000], some (Real.log (2 / 4)), 4, 2⟩ := by
+  have hn : cfgCl.rw.nPart = 2 := rfl
+  have h1 : warmupStep wEx0 cfgCl 0 = some ⟨[10, 11], [10 / 4, 11 / 4], some (Real.log (2 / 4)), 4, 2⟩ := by
+    have hr : List.range 2 = [0, 1] := by decide
+    have hno : ¬ ∃ x ≤ 1, ([some (10 / 4 : ℝ), some (11 / 4)] : List (Option ℝ))[x]?.join = none := by
+      rintro ⟨x, hx, h⟩
+      interval_cases x <;> simp at h
+    simp only [warmupStep, hn, drawEx0, Option.bind_some]
+    simp [countSome, allSome, hr, hno]
+  refine ⟨h1, ?_⟩
+  rw [C10_cl_warmup, h1]
+  simp [shiftDrawn]
+
+/-- the cap: in a world where EVERY record is outside the support the loop raises (`none`) after `drawCap` batches, and so
+    does the shifted run -/
+example : warmupStep (shiftW 1000 ({ wEx with like := fun _ => none } : World ℝ Nat Unit Unit Nat)) cfgCl 0 = none := by
+  rw [C10_cl_warmup]
+  have : ∀ (f : Nat) (g k : Nat), drawLoop ({ wEx with like := fun _ => none } : World ℝ Nat Unit Unit Nat) 2 f g k = none := by
+    intro f
+    induction f with
+    | zero => intro g k; rfl
+    | succ f ih => intro g k; simp [drawLoop, countSome, ih]
+  have hn : cfgCl.rw.nPart = 2 := rfl
+  simp [warmupStep, hn, this]
 
 theorem wfc_sCl1 : WFC sCl1 := by
   intro b hb; simp [sCl1] at hb; subst hb; simp
